@@ -4,7 +4,7 @@
    run / block1_loop / complete_by_requesting_block2 (Model/C05.v) model protocol.py BlockwiseRequest._run and
    _complete_by_requesting_block2; serve_ref (Model/C05Server.v) is the RFC 7959 reference server; serve_script is the server that
    answers with an arbitrary given list of responses.  bsize szx = 2^(szx+4).  Theorems 1-10 are about the regular size exponents 0..6, theorems 11-14 about size exponent 7 (BERT, RFC 8323). *)
-From Verif Require Import Lib.Py Lib.PyLemmas Lib.Tactics Gen.block_kernels Model.C05 Model.C05Server Model.C05Retry Proofs.C05 Proofs.C05Retry Proofs.C05Bert Proofs.C05Audit.
+From Verif Require Import Lib.Py Lib.PyLemmas Lib.Tactics Gen.block_kernels Model.C05 Model.C05Server Model.C05Retry Proofs.C05 Proofs.C05Retry Proofs.C05Bert Proofs.C05Audit Proofs.C05R6.
 Open Scope Z_scope.
 
 (* 1. _extract_block partitions the body: block NUM is exactly the bytes at offset NUM*size, it has the full size and the more-flag
@@ -276,6 +276,45 @@ Theorem C05_block2_transport_failure : forall (S : Type) (serve : S -> request -
 Proof. exact @block2_transport_failure_lemma. Qed.
 Print Assumptions C05_block2_transport_failure.
 
+(* ---- round 6: dead exchanges at run level, and which errors a run can end in *)
+
+(* 21. Theorem 9 without its hypothesis.  For every application-level server, every request and EVERY schedule of the retrying network — any mix of
+       duplicated requests, duplicated responses and exchanges that die in either direction — the run is the loss-free run (same transcript,
+       same outcome, same server state), or it ends in NetworkError and its transcript is a non-empty prefix of the loss-free transcript:
+       nothing is sent that the loss-free run would not have sent, and no outcome other than the loss-free one or the transport error arises.
+       (Proved from a general simulation-until-failure lemma for the client machine, Proofs/C05R6.run_cut.) *)
+Theorem C05_retried_any_schedule : forall (S : Type) (serve : S -> request -> S * sresult) cfg fuel s sched s' tr o,
+  run serve fuel s cfg = (s', tr, o) ->
+  exists st' tr2 o2, run (serve_retried serve) fuel (rinit s sched) cfg = (st', tr2, o2) /\
+    ((tr2 = tr /\ o2 = o /\ r_inner st' = s') \/ (o2 = Err NetworkError /\ tr2 <> [] /\ exists tl, tr = tr2 ++ tl)).
+Proof. exact @retried_any_schedule. Qed.
+Print Assumptions C05_retried_any_schedule.
+
+(* ... hence theorem 3 over ANY network schedule: the transfer completes exactly as specified, or the request ends in NetworkError *)
+Theorem C05_transfer_any_schedule : forall scf e rep, honest_cfg scf e rep ->
+  forall cfg, 0 <= c_mbse cfg <= 6 -> 0 <= c_mps cfg ->
+  (c_block2 cfg = None \/ exists m2 s2, c_block2 cfg = Some (0, m2, s2) /\ 0 <= s2 <= 6) ->
+  forall sched fuel, (Z.to_nat (blen (c_body cfg)) + Z.to_nat (blen rep) + 1 < fuel)%nat ->
+  exists st tr o, run (serve_retried (serve_ref scf)) fuel (rinit sstate0 sched) cfg = (st, tr, o) /\
+    ((exists r, o = Done r /\ sv_bodies (r_inner st) = [c_body cfg] /\ rs_payload r = rep /\ rs_etag r = e /\
+                is_successful (rs_code r) = true /\ wire_ok cfg tr) \/
+     o = Err NetworkError).
+Proof. exact transfer_any_schedule_lemma. Qed.
+Print Assumptions C05_transfer_any_schedule.
+
+(* 22. "Fail loudly" classified, for ANY server (answers as Message.decode produces them), any fuel: a run ends in a response, in running out
+       of fuel, or in one of seven errors — the transport failure, the five protocol errors of theorems 6, 7, 8 and the two loud-but-unspecific
+       exits (AssertionError: ragged first Block2 block; AttributeError: Block1 / Observe on an answer where none belongs).  In particular
+       BadRequest — _extract_block asked for a block beyond the end of the body (DESIGN section 10 `no_out_of_bounds`, the symptom of the cursor
+       defects) — and every other exception of the translated arithmetic are unreachable. *)
+Theorem C05_run_error_classes : forall (S : Type) (serve : S -> request -> S * sresult),
+  (forall s rq s' r, req_wf rq = true -> serve s rq = (s', SResp r) -> resp_wf r = true) ->
+  forall cfg fuel s s' tr o, 0 <= c_mbse cfg <= 6 -> 0 <= c_mps cfg -> bt_wf6 (c_block2 cfg) = true ->
+  run serve fuel s cfg = (s', tr, o) ->
+  match o with Err e => In e [NetworkError; UnexpectedBlock1Option; UnexpectedBlock2; NotImplementedError; ResourceChanged; AssertionError; AttributeError] | _ => True end.
+Proof. exact @run_classified. Qed.
+Print Assumptions C05_run_error_classes.
+
 (* ---- tier B: size exponent 7 / BERT for remotes on reliable transports (maximum_block_size_exp = 7; a message carries
         bert_size mps = 1024 * (maximum_payload_size / 1024) bytes; NUM counts 1024-byte blocks) *)
 
@@ -419,3 +458,8 @@ Proof.
     cbn [ex_whole rs_block2 rs_payload]. split; [lia|]. split; [lia|]. split; vm_compute; reflexivity.
   - eexists _, _. split; vm_compute; reflexivity.
 Qed.
+(* round 6: a schedule that duplicates, then kills the third exchange (its request never arrives): NetworkError after three requests, a prefix
+   of the loss-free transcript of ex_transfer *)
+Example ex_dead_exchange : (let '(st, tr, o) := run (serve_retried (serve_ref ex_scf)) 2000 (rinit sstate0 [Delivered 2 1; Delivered 0 3; Dead false; Delivered 1 1]) ex_cfg in
+  (map rq_block1 tr, o, sv_bodies (r_inner st))) = ([Some (0, true, 6); Some (16, true, 2); Some (68, true, 0)], Err NetworkError, []).
+Proof. vm_compute. reflexivity. Qed.
